@@ -117,32 +117,49 @@ class Driver:
         known_v: T.List[T.Tuple[int, T.Dict[str, T.Any], T.Dict[str, T.Any]]] = []
         herrors: T.List[T.Tuple[int, T.Dict[str, T.Any]]] = []
         next_index = 0
-        with self.pool() as ex:
+        from concurrent.futures.process import BrokenProcessPool
+        pools = [self.pool()]
+        try:
+            ex = pools[0]
             pending: T.Set[cf.Future] = set()
+            fut_args: T.Dict[cf.Future, T.Tuple[T.Any, ...]] = {}
+            attempts: T.Dict[int, int] = {}
+
+            def submit(kind: str, index: int, payload: T.Any) -> None:
+                attempts[index] = attempts.get(index, 0) + 1
+                if kind == 'sc':
+                    fu_ = pools[-1].submit(_run_sc_indexed, (index, payload, self.wall_limit))
+                else:
+                    fu_ = pools[-1].submit(_gen_and_run, (self.seed, self.tier, index, self.wall_limit))
+                fut_args[fu_] = (kind, index, payload)
+                pending.add(fu_)
             # regression scenarios of repaired / recorded findings run first, every time
             import glob
             for k, path in enumerate(sorted(glob.glob(os.path.join(E.VERIF_DIR, 'findings', chk.id + '-*.json')))):
                 with open(path) as f:
                     rsc = json.load(f)['scenario']
-                fu = ex.submit(_run_sc_indexed, (-(k + 1), rsc, self.wall_limit))
-                pending.add(fu)
+                submit('sc', -(k + 1), rsc)
 
             def feed() -> None:
                 nonlocal next_index
                 while len(pending) < self.jobs * 3 and next_index < max_n:
                     if self.tier != 'quick' and time.monotonic() - t_start > budget:
                         return
-                    pending.add(ex.submit(_gen_and_run, (self.seed, self.tier, next_index, self.wall_limit)))
+                    submit('gen', next_index, None)
                     next_index += 1
             feed()
             while pending:
                 done, _ = cf.wait(pending, return_when=cf.FIRST_COMPLETED)
+                lost: T.List[T.Tuple[T.Any, ...]] = []
                 for fu in done:
                     pending.discard(fu)
                     try:
                         index, sc, out = fu.result()
+                    except BrokenProcessPool:
+                        lost.append(fut_args[fu])
+                        continue
                     except Exception as e:
-                        herrors.append((-1, harness_error(f'worker died: {e!r}')))
+                        herrors.append((fut_args[fu][1], harness_error(f'worker died: {e!r}')))
                         continue
                     agg.add(index, sc, out)
                     if out['status'] == 'violation':
@@ -152,6 +169,20 @@ class Driver:
                             violations.append((index, sc, out))
                     elif out['status'] == 'harness_error':
                         herrors.append((index, out))
+                if lost:
+                    # a worker was killed (scenario wall limit, or from outside): the executor is unusable, everything in
+                    # flight is lost. Start a new one; what was in flight gets one more try, then counts as a harness error.
+                    for fu in list(pending):
+                        lost.append(fut_args[fu])
+                    pending.clear()
+                    pools[-1].shutdown(wait=False, cancel_futures=True)
+                    pools.append(self.pool())
+                    ex = pools[-1]
+                    for kind, index, payload in lost:
+                        if attempts.get(index, 0) >= 2:
+                            herrors.append((index, harness_error(f'scenario {index} lost twice with its worker (killed at the wall limit of {self.wall_limit:.0f}s or from outside)')))
+                        else:
+                            submit(kind, index, payload)
                 if len(violations) >= 40 or len(herrors) >= 20:
                     for fu in pending:
                         fu.cancel()
@@ -182,6 +213,9 @@ class Driver:
                     continue
                 rep = self.minimise_and_record(ex, index, sc, out)
                 reported.append(rep)
+        finally:
+            for p_ in pools:
+                p_.shutdown(wait=False, cancel_futures=True)
         for line in sorted(known_lines.values()):
             print(line)
         exit_code = 0
